@@ -257,7 +257,8 @@ def dataNames : List String :=
 /-- everything else the dispatch knows: connection, server, persistence, replication, introspection, all-database commands -/
 def nonDataNames : List String :=
   ["VERIF", "PING", "ECHO", "SELECT", "FLUSHALL", "SLEEP", "CONFIG", "SAVE", "BGSAVE", "LASTSAVE", "BGREWRITEAOF", "INFO", "SLOWLOG",
-   "CLIENT", "AUTH", "REPLICAOF", "SLAVEOF", "SYNC", "PSYNC", "QUIT", "COMMAND", "SHUTDOWN", "SCRIPT"]
+   "CLIENT", "AUTH", "REPLICAOF", "SLAVEOF", "SYNC", "PSYNC", "QUIT", "COMMAND", "SHUTDOWN", "SCRIPT",
+   "PUBLISH"]   -- PUBLISH: no arm today; the proposed C07_2 patch adds one (a queued PUBLISH run by EXEC), no key space involved
 
 /-- data commands whose dispatch arm is KNOWN not to pass `db` (listed findings; must be emptied by the fix) -/
 def knownNoDb : List String := ["EVALSHA"]
